@@ -18,6 +18,7 @@ META = {
     "assumptions": ["Value_T/StringStream_T are the library's own types"],
 }
 META["explanation"] += " " + 'FX-sink follows the helper methods of the renderer class that the {var:} renderer calls (transitively): they may write to the stream only through the escaper.'
+META["explanation"] += " " + '(PR-passthru) abstract interpretation of the & arm over (units known at the cursor, interval of the remaining length): with each entity at the cursor every feasible path skips it whole and writes nothing, and every path that writes nothing has established all units of an entity inside the remaining length; this replaces the earlier shape-matching look-ahead clause. (CFG-switch) additionally the constant Config::AutoEscapeHTML as evaluated by the front end in the build with QENTEM_AUTO_ESCAPE_HTML=0 and in the default build. (NARROW-unit) the escaper dispatches on whole code units.'
 
 ENTITIES = {ord("&"): ("HTMLAnd", "&amp;"), ord("<"): ("HTMLLess", "&lt;"), ord(">"): ("HTMLGreater", "&gt;"),
             ord('"'): ("HTMLQuote", "&quot;"), ord("'"): ("HTMLSingleQuote", "&apos;")}
@@ -253,41 +254,8 @@ def run(ctx):
             lens[ent] = len(lit)
         sc = mm.get("SemicolonChar")
         r.ob("HTMLSpecialChars_T" + targs, "SemicolonChar", sc is not None and tab.var_int(m, sc) == ord(";"), "value", tab.rel(sc) if sc else "", nontrivial=False)
-    # look-ahead: if ((rem_length > G) && (n_str[I] == Semicolon)) ... IsEqual(n_str, Entity, C) ... index += S
     amp = seen.get(ord("&"))
-    found = {}
-
-    def cval(x):
-        v = es.const_value(x)
-        return v if v is not None else m.eval_nodes(es.nodes, es.strip_casts(x))
-    if amp:
-        for s in amp:
-            for i in astq.nodes_of(es, "IfStmt", s):
-                n = es.nodes[i]
-                G = I = None
-                for x in es.walk(n["cond"]):
-                    xn = es.nodes[x]
-                    if xn["k"] == "BinaryOperator" and xn["op"] == ">" and es.nodes[es.strip(xn["ch"][0])].get("n") == "rem_length":
-                        G = cval(xn["ch"][1])
-                    if xn["k"] == "ArraySubscriptExpr" and es.nodes[es.strip(xn["ch"][0])].get("n") == "n_str":
-                        I = cval(xn["ch"][1])
-                if G is None:
-                    continue
-                ents = []
-                for c in astq.calls(es, "IsEqual", i):
-                    a = es.call_args(c)
-                    ents.append((es.nodes[es.strip(a[1])].get("n"), cval(a[2])))
-                skips = [cval(es.nodes[x]["ch"][1]) for x in es.walk(n["then"]) if es.nodes[x]["k"] == "CompoundAssignOperator" and es.nodes[x]["op"] == "+=" and es.nodes[es.strip(es.nodes[x]["ch"][0])].get("n") == "index"]
-                for (ename, C) in ents:
-                    found[ename] = (G, I, C, skips[0] if skips else None, i)
-    for ch, (ent, lit) in ENTITIES.items():
-        L = len(lit)
-        if ent not in found:
-            r.ob(es.q, "pass-through " + ent, False, "already escaped entity %s is not recognised by the & arm" % lit, "Include/StringUtils.hpp:%d" % es.line)
-            continue
-        G, I, C, S, i = found[ent]
-        ok = (G, I, C, S) == (L - 1, L - 1, L - 1, L)
-        r.ob(es.q, "pass-through " + ent, ok, "guard rem_length > %s, ';' at n_str[%s], compares %s units, skips %s; entity length %d needs %d/%d/%d/%d" % (G, I, C, S, L, L - 1, L - 1, L - 1, L), es.loc(i))
+    # (the look-ahead of the '&' arm is decided by PR-passthru on abstract paths, not by the shape of its conditions)
     rules.append(r)
 
     # ---------------- PR-passthru
@@ -317,18 +285,24 @@ def run(ctx):
             "Include/QCommon.hpp:%d" % vs[0]["line"])
     r.floor = 3
     rules.append(r)
+    # all character widths: the escaper dispatches on whole code units (a narrowed unit makes U+0426 look like '&')
+    from rules.common import rule_narrow_units, rule_sign_unit
+    rules.append(rule_narrow_units(ctx, m, ["StringUtils.hpp"]))
     return rules
 
 
 
 def rule_passthrough(ctx, m, es, seen, ENTITIES):
-    """PR-passthru: "escaping an already escaped string changes nothing".  Abstract interpretation of the '&' arm of the escaper
-    over the domain (known prefix of the text at the cursor, interval of the remaining length): for each of the five entities the
-    prefix is the entity, every later unit is unknown and the remaining length is any value >= the entity's length.  Branch
-    conditions are evaluated three-valued (remaining-length comparisons, unit comparisons, IsEqual against an entity literal);
-    an unknown condition takes both edges.  On EVERY feasible path the arm must advance the cursor by exactly the entity's length and
-    write nothing.  A path that emits an entity or advances differently is reported with the decisions that lead to it."""
-    r = Rule("PR-passthru", "an entity at the cursor is skipped whole and nothing is emitted, whatever follows it (abstract paths of the '&' arm)", floor=5)
+    """PR-passthru: "escaping an already escaped string changes nothing" and "& only as the start of an entity".  Abstract
+    interpretation of the '&' arm of the escaper over the domain (units known at the cursor, interval of the remaining length).
+    Branch conditions are evaluated three-valued (remaining-length comparisons, unit comparisons, IsEqual against an entity
+    literal); an unknown condition takes both edges and the edge taken adds what it implies (the units an IsEqual matched, the
+    unit a comparison found, the bound on the remaining length).
+      (forward) for each of the five entities: with the entity at the cursor, whatever follows, on EVERY feasible path the arm
+                advances the cursor by exactly the entity's length and writes nothing;
+      (converse) with nothing known but the '&': every feasible path that writes nothing advances by the length of an entity
+                whose every unit the path has established, inside the remaining length."""
+    r = Rule("PR-passthru", "an entity at the cursor is skipped whole and nothing else is skipped (abstract paths of the '&' arm)", floor=6)
     amp = seen.get(ord("&"))
     if not amp or not es.cfg:
         r.broke("EscapeHTMLSpecialChars: the case '&' arm was not found")
@@ -349,7 +323,6 @@ def rule_passthrough(ctx, m, es, seen, ENTITIES):
                     decl_init[d["d"]] = d["init"]
 
     def lin(x, depth=0):
-        """{name: coeff, 1: const} over the parameters/cursors, locals of the arm resolved through their initialisers"""
         x = es.strip_casts(x)
         n = es.nodes[x]
         c = es.const_value(x)
@@ -372,7 +345,6 @@ def rule_passthrough(ctx, m, es, seen, ENTITIES):
         return None
 
     def remaining(x):
-        """c such that x == (length - index) + c"""
         L = lin(x)
         if L is None:
             return None
@@ -380,7 +352,6 @@ def rule_passthrough(ctx, m, es, seen, ENTITIES):
         return L.get(1, 0) if rest == {"length": 1, "index": -1} else None
 
     def unit_pos(x):
-        """p such that x reads str[index + p]"""
         x = es.strip_casts(x)
         n = es.nodes[x]
         if n["k"] != "ArraySubscriptExpr":
@@ -396,56 +367,116 @@ def rule_passthrough(ctx, m, es, seen, ENTITIES):
 
     def const_unit(x):
         x = es.strip_casts(x)
-        n = es.nodes[x]
-        nm = n.get("n")
+        nm = es.nodes[x].get("n")
         if nm in names:
             return ord(names[nm])
-        v = es.const_value(x)
-        return v
+        return es.const_value(x)
 
-    def evaluate(x, st):
-        """True / False / None (unknown) / 'unclassified'; may refine st['lo'], st['hi'] through the caller"""
+    def classify(x):
+        """('rem', op, value) | ('unit', pos, op, const) | ('iseq', off, literal, n) | ('not', sub) | None"""
         x = es.strip(x)
         n = es.nodes[x]
         if n["k"] == "UnaryOperator" and n["op"] == "!":
-            v = evaluate(n["ch"][0], st)
-            return v if v in (None, "unclassified") else (not v)
+            sub = classify(n["ch"][0])
+            return ("not", sub) if sub else None
         if n["k"] == "BinaryOperator" and n["op"] in ("<", "<=", ">", ">=", "==", "!="):
             a, b = n["ch"]
             for (l_, r_, op) in ((a, b, n["op"]), (b, a, {"<": ">", "<=": ">=", ">": "<", ">=": "<=", "==": "==", "!=": "!="}[n["op"]])):
                 c = remaining(l_)
                 k = lin(r_)
                 if c is not None and k is not None and set(k) <= {1}:
-                    return ("rem", op, k.get(1, 0) - c)     # R op value
-                p = unit_pos(l_)
+                    return ("rem", op, k.get(1, 0) - c)
+                p_ = unit_pos(l_)
                 u = const_unit(r_)
-                if p is not None and u is not None and op in ("==", "!="):
-                    if p < len(st["prefix"]):
-                        eq = ord(st["prefix"][p]) == u
-                        return eq if op == "==" else (not eq)
-                    return None
-            return "unclassified"
+                if p_ is not None and u is not None and op in ("==", "!="):
+                    return ("unit", p_, op, u)
+            return None
         if n["k"] in ("CallExpr", "CXXMemberCallExpr") and es.call_simple_name(x) == "IsEqual":
             args = es.call_args(x)
             if len(args) == 3:
                 b0 = lin(args[0])
                 ent = es.nodes[es.strip(args[1])].get("n")
                 cnt = lin(args[2])
-                if b0 is not None and {k: v for k, v in b0.items() if k != 1 and v} == {"str": 1, "index": 1} and ent in lits and cnt is not None and set(cnt) <= {1}:
-                    off, nunits = b0.get(1, 0), cnt.get(1, 0)
-                    unknown = False
-                    for j in range(nunits):
-                        if j >= len(lits[ent]):
-                            return "unclassified"
-                        pp = off + j
-                        if pp < len(st["prefix"]):
-                            if st["prefix"][pp] != lits[ent][j]:
-                                return False
-                        else:
-                            unknown = True
-                    return None if unknown else True
-            return "unclassified"
-        return "unclassified"
+                if b0 is not None and {k: v for k, v in b0.items() if k != 1 and v} == {"str": 1, "index": 1} and ent in lits and cnt is not None and set(cnt) <= {1} \
+                        and cnt.get(1, 0) <= len(lits[ent]):
+                    return ("iseq", b0.get(1, 0), lits[ent], cnt.get(1, 0))
+        return None
+
+    def decide(cl, st):
+        """True/False/None for a classified atom under the state"""
+        if cl[0] == "not":
+            v = decide(cl[1], st)
+            return None if v is None else (not v)
+        if cl[0] == "rem":
+            _, op, val = cl
+            import operator
+            fn = {"<": operator.lt, "<=": operator.le, ">": operator.gt, ">=": operator.ge, "==": operator.eq, "!=": operator.ne}[op]
+            lo, hi = st["lo"], st["hi"]
+            if fn(lo, val) and fn(hi, val) and op in ("<", "<=", ">", ">="):
+                return True
+            if (not fn(lo, val)) and (not fn(hi, val)) and op in ("<", "<=", ">", ">="):
+                return False
+            if op == "==" and (val < lo or val > hi):
+                return False
+            if op == "!=" and (val < lo or val > hi):
+                return True
+            return None
+        if cl[0] == "unit":
+            _, pos, op, u = cl
+            if pos in st["known"]:
+                eq = ord(st["known"][pos]) == u
+                return eq if op == "==" else (not eq)
+            if pos in st["notunit"] and u in st["notunit"][pos]:
+                return op == "!="
+            return None
+        if cl[0] == "iseq":
+            _, off, lit, cnt = cl
+            unknown = False
+            for j in range(cnt):
+                pp = off + j
+                if pp in st["known"]:
+                    if st["known"][pp] != lit[j]:
+                        return False
+                else:
+                    unknown = True
+            return None if unknown else True
+        return None
+
+    def assume(cl, truth, st):
+        """narrow the state by the edge taken; returns False if the edge is infeasible"""
+        if cl[0] == "not":
+            return assume(cl[1], not truth, st)
+        if cl[0] == "rem":
+            _, op, val = cl
+            eff = op if truth else {"<": ">=", "<=": ">", ">": "<=", ">=": "<", "==": "!=", "!=": "=="}[op]
+            lo, hi = st["lo"], st["hi"]
+            if eff == ">":
+                lo = max(lo, val + 1)
+            elif eff == ">=":
+                lo = max(lo, val)
+            elif eff == "<":
+                hi = min(hi, val - 1)
+            elif eff == "<=":
+                hi = min(hi, val)
+            elif eff == "==":
+                lo, hi = max(lo, val), min(hi, val)
+            st["lo"], st["hi"] = lo, hi
+            return lo <= hi
+        if cl[0] == "unit":
+            _, pos, op, u = cl
+            if (op == "==") == truth:
+                st["known"] = dict(st["known"])
+                st["known"][pos] = chr(u)
+            else:
+                st["notunit"] = dict(st["notunit"])
+                st["notunit"][pos] = st["notunit"].get(pos, frozenset()) | {u}
+            return True
+        if cl[0] == "iseq" and truth:
+            _, off, lit, cnt = cl
+            st["known"] = dict(st["known"])
+            for j in range(cnt):
+                st["known"][off + j] = lit[j]
+        return True
 
     def effects(b, st):
         for e in b["el"]:
@@ -454,7 +485,7 @@ def rule_passthrough(ctx, m, es, seen, ENTITIES):
                 continue
             n = es.nodes[x]
             if n["k"] in ("CallExpr", "CXXMemberCallExpr") and es.call_simple_name(x) == "Write":
-                st["writes"].append(es.text(x)[:60])
+                st["writes"] = st["writes"] + [es.text(x)[:60]]
             if n["k"] == "CompoundAssignOperator" and n["op"] == "+=" and es.nodes[es.strip(n["ch"][0])].get("n") == "index":
                 k = lin(n["ch"][1])
                 st["adv"] = None if (k is None or set(k) - {1} or st["adv"] is None) else st["adv"] + k.get(1, 0)
@@ -467,59 +498,47 @@ def rule_passthrough(ctx, m, es, seen, ENTITIES):
         ns = [e["n"] for e in b["el"] if isinstance(e.get("n"), int) and not e.get("k")]
         return bool(ns) and all(x in arm_nodes for x in ns)
 
-    for ch, (ent, lit) in sorted(ENTITIES.items()):
-        L = len(lit)
+    def explore(known, lo):
         finals = []
-        work = [(start[0]["id"], {"prefix": lit, "lo": L, "hi": 10 ** 9, "writes": [], "adv": 0, "dec": [], "uncl": False})]
+        work = [(start[0]["id"], {"known": dict(known), "notunit": {}, "lo": lo, "hi": 10 ** 9, "writes": [], "adv": 0, "dec": [], "uncl": False})]
         steps = 0
-        while work and steps < 5000:
+        while work and steps < 20000:
             steps += 1
             bid, st = work.pop()
             b = blocks[bid]
             if bid != start[0]["id"] and not in_arm(b):
                 finals.append(st)
                 continue
+            st = dict(st)
             effects(b, st)
             succ = dataflow.successors(es, b)
             if not succ:
                 finals.append(st)
                 continue
             if succ[0][1] not in ("true", "false"):
-                for (s_, k_, p_) in succ:
-                    work.append((s_, st))
-                    break
+                work.append((succ[0][0], st))
                 continue
             cond = succ[0][2]
-            v = evaluate(cond, st)
+            cl = classify(cond)
+            v = decide(cl, st) if cl else None
             for (s_, kind, _) in succ:
                 truth = kind == "true"
-                st2 = dict(st, writes=list(st["writes"]), dec=list(st["dec"]))
-                if isinstance(v, tuple):
-                    _, op, val = v
-                    lo, hi = st2["lo"], st2["hi"]
-                    eff = op if truth else {"<": ">=", "<=": ">", ">": "<=", ">=": "<", "==": "!=", "!=": "=="}[op]
-                    if eff == ">":
-                        lo = max(lo, val + 1)
-                    elif eff == ">=":
-                        lo = max(lo, val)
-                    elif eff == "<":
-                        hi = min(hi, val - 1)
-                    elif eff == "<=":
-                        hi = min(hi, val)
-                    elif eff == "==":
-                        lo, hi = max(lo, val), min(hi, val)
-                    if lo > hi:
-                        continue
-                    st2["lo"], st2["hi"] = lo, hi
-                elif v is True or v is False:
-                    if v != truth:
-                        continue
-                else:
-                    if v == "unclassified":
-                        st2["uncl"] = True
+                if v is not None and v != truth:
+                    continue
+                st2 = dict(st, dec=list(st["dec"]))
+                if cl is None:
+                    st2["uncl"] = True
+                elif not assume(cl, truth, st2):
+                    continue
+                if v is None:
                     st2["dec"].append("%s is %s" % (es.text(cond)[:70], "true" if truth else "false"))
                 work.append((s_, st2))
-        if steps >= 5000 or not finals:
+        return finals if steps < 20000 else None
+
+    for ch, (ent, lit) in sorted(ENTITIES.items()):
+        L = len(lit)
+        finals = explore({i: c for i, c in enumerate(lit)}, L)
+        if not finals:
             r.broke("EscapeHTMLSpecialChars: the paths of the '&' arm for %s could not be enumerated" % lit)
             continue
         bad = [st for st in finals if st["writes"] or st["adv"] != L]
@@ -534,4 +553,25 @@ def rule_passthrough(ctx, m, es, seen, ENTITIES):
         else:
             why = "%d feasible path(s): each advances the cursor by %d and writes nothing" % (len(finals), L)
         r.ob(es.q, "pass-through of %s on every continuation" % lit, not hard, why, es.loc(amp[0]))
+    # converse: whatever is skipped is an entity
+    finals = explore({0: "&"}, 1)
+    if not finals:
+        r.broke("EscapeHTMLSpecialChars: the paths of the '&' arm could not be enumerated")
+        return r
+    skipping = [st for st in finals if not st["writes"]]
+    bad = None
+    for st in skipping:
+        adv = st["adv"]
+        text = "".join(st["known"].get(i, "?") for i in range(adv or 0))
+        if adv is None or text not in lits.values() or st["lo"] < adv:
+            bad = (st, text)
+            break
+    uncl = [st for st in skipping if st["uncl"]]
+    if bad and uncl and bad[0] in uncl:
+        r.broke("EscapeHTMLSpecialChars: a skipping path of the '&' arm depends on a condition this rule cannot classify")
+        return r
+    r.ob(es.q, "nothing but an entity is passed through", bad is None,
+         "%d path(s) emit nothing; each has established every unit of one of the five entities within the remaining length" % len(skipping) if bad is None else
+         "a path (%s) skips %s unit(s) and emits nothing although the units it has established spell `%s`%s: an '&' that does not start an entity reaches the output" % (
+             "; ".join(bad[0]["dec"])[:160], bad[0]["adv"], bad[1], "" if bad[0]["lo"] >= (bad[0]["adv"] or 0) else " and only %d unit(s) are known to remain" % bad[0]["lo"]), es.loc(amp[0]))
     return r
